@@ -32,6 +32,7 @@ impl Engine {
     }
 
     pub fn cleanup(&self) {
+        crate::world::remove_tree(&crate::node::tmp_base());
         crate::world::remove_tree(&self.base);
     }
 
